@@ -3,9 +3,12 @@
 package c05
 
 import (
+	"fmt"
 	"go/ast"
+	"go/printer"
 	"go/token"
 	"go/types"
+	"os"
 	"strings"
 
 	"rscheck/cfgq"
@@ -60,7 +63,14 @@ func (r *rs) guard(rule, key string, pos token.Pos, g *cfgq.Graph, p cfgq.Point,
 }
 
 // fn resolves an anchor and returns its view with helper calls inlined.
-func (r *rs) fn(pkgPath, recv, name string) *core.Fn { return r.inl.Fn(r.c.Func(pkgPath, recv, name)) }
+func (r *rs) fn(pkgPath, recv, name string) *core.Fn {
+	fn := r.inl.Fn(r.c.Func(pkgPath, recv, name))
+	if fn != nil && os.Getenv("RS_DUMP") == name { // developer aid: the view the rules look at
+		printer.Fprint(os.Stderr, r.c.Fset, fn.Decl.Body)
+		fmt.Fprintln(os.Stderr)
+	}
+	return fn
+}
 
 func Run(c *core.Ctx) {
 	r := &rs{c: c}
@@ -83,9 +93,7 @@ func Run(c *core.Ctx) {
 	r.rawConn(pkgR, "dbDumper", "sendCmd")
 	r.rawConn(pkgS, "DbSyncer", "sendSyncCmd")
 	// instance counts confirmed on the pinned tree: fewer is UNDECIDED, never a vacuous pass
-	for rule, n := range map[string]int{"R1.header": 2, "R2.reader": 19, "R3.bounded": 13, "R4.frame": 11, "R5.reply": 7, "R5.use": 10, "R6.copy": 6} {
-		c.Expect(rule, n)
-	}
+	flow.ExpectAll(c, map[string]int{"R1.header": 2, "R2.reader": 19, "R3.bounded": 13, "R4.frame": 11, "R5.reply": 7, "R5.use": 10, "R6.copy": 6})
 }
 
 // ---- helpers
